@@ -29,10 +29,10 @@ fn profile(thorough: bool) -> Profile {
 }
 
 fn nontrivial(o: &Outcome) -> bool {
-    o.events.contains("multi-target-mixed-flavours") || o.events.contains("hybrid-flavour-observed-after-rekey") || o.events.contains("mlkem-binding-probed")
+    o.events.contains("multi-target-mixed-flavours") || o.events.contains("hybrid-flavour-observed-after-rekey") || o.events.contains("mlkem-binding-probed") || o.events.contains("mlkem-dk-needed-probed")
 }
 
-const CLASSES: &[&str] = &["hybridized-enc", "multi-target-mixed-flavours", "hybrid-flavour-observed-after-rekey", "mlkem-binding-probed", "rekeyed", "roundtrip", "multi-target-enc"];
+const CLASSES: &[&str] = &["hybridized-enc", "multi-target-mixed-flavours", "hybrid-flavour-observed-after-rekey", "mlkem-binding-probed", "mlkem-dk-needed-probed", "rekeyed", "roundtrip", "multi-target-enc"];
 
 fn hc(thorough: bool) -> HistCheck<'static> {
     HistCheck {
@@ -40,7 +40,7 @@ fn hc(thorough: bool) -> HistCheck<'static> {
         profile: profile(thorough),
         nontrivial,
         classes: CLASSES,
-        required: &["hybridized-enc", "multi-target-mixed-flavours", "hybrid-flavour-observed-after-rekey", "mlkem-binding-probed"],
+        required: &["hybridized-enc", "multi-target-mixed-flavours", "hybrid-flavour-observed-after-rekey", "mlkem-binding-probed", "mlkem-dk-needed-probed"],
         reps: 1,
         stream: 11,
     }
@@ -51,7 +51,7 @@ pub fn run(ctx: &Ctx, col: &Collector) -> Meta {
     run_hist(ctx, col, &h, ctx.n(2500, 30_000));
     Meta {
         level: "exploration",
-        rule: "random structures with arbitrary hint assignments (all-classic, all-hybridized, mixed within and across dimensions) and histories of rekey, refresh, round-trips, key generation and encapsulation with single / multiple targets of equal and mixed flavour; from the independently decoded wire forms: every revision of every right in the master key, every public key and every user-key secret carries ML-KEM material iff some attribute of the right was declared hybridized; an encapsulation has the hybridized layout (flag, one ML-KEM ciphertext per target, size = README formula) iff all its targets are hybridized; flipping a bit inside an ML-KEM ciphertext makes an authorized key fail. Non-trivial = history with a multi-target encapsulation of mixed flavours, a hybridized flavour observed after a rekey, or an ML-KEM binding probe; distinct by the whole case".into(),
+        rule: "random structures with arbitrary hint assignments (all-classic, all-hybridized, mixed within and across dimensions) and histories of rekey, refresh, round-trips, key generation and encapsulation with single / multiple targets of equal and mixed flavour; from the independently decoded wire forms: every revision of every right in the master key, every public key and every user-key secret carries ML-KEM material iff some attribute of the right was declared hybridized; an encapsulation has the hybridized layout (flag, one ML-KEM ciphertext per target, size = README formula) iff all its targets are hybridized; flipping a bit inside an ML-KEM ciphertext makes an authorized key fail, and so does replacing every ML-KEM decapsulation key of the authorized key by a valid unrelated one (the ML-KEM layer must contribute to the secret). Non-trivial = history with a multi-target encapsulation of mixed flavours, a hybridized flavour observed after a rekey, or an ML-KEM binding probe; distinct by the whole case".into(),
         exhaustive: false,
         assumptions: vec!["flavour = presence of ML-KEM key material / ciphertexts in the serialized forms (sizes from the selected configuration)".into()],
     }
